@@ -19,13 +19,23 @@ EXEC_TIMEOUT = 900
 RULE = ("cases = corpus + every max_cycles in 0..64 on a counter, a toggle and a ping-pong pair (both execute twins) + N random "
         "cases: counters with bounds 1..70, an always-true self-trigger, rings of 2..4 toggling rules, a mutually triggering triple, and "
         "random rule sets (mostly without no-loop; extreme saliences; some agenda/activation groups; some missing fields), max_cycles in 0..64 "
-        "(0, 1 and 64 over-represented), timeout None, one or two calls of execute_at_time / execute_with_callback per engine. Every case "
+        "(0, 1 and 64 over-represented), timeout None, one or two calls of execute_at_time / execute_with_callback per engine; "
+        "+ N/40 large knowledge bases (30..140 rules, sizes next to 32/64/128 over-represented: never-true / disabled / other-group / "
+        "out-of-date fillers with counters, toggles, rings and a mutually triggering triple behind all of them, in the middle, in front, "
+        "split or scattered, sometimes with a rule that fires in the first pass only; salience ties, classes added in random order) "
+        "+ N/6 execute / knowledge-base-edit / execute histories on ONE engine (no-loop, lock-on-active and activation-group rules with "
+        "true conditions; add_rule above / between / below the rules that already fired, remove_rule in front or at random, re-adding a "
+        "removed name, enable/disable, fact edits, reset_no_loop_tracking; 2..5 executes) "
+        "+ N/10 histories in which a call ends at the max_cycles bound or with an action error after an activation-group rule fired, "
+        "optionally repaired (disable/remove the failing rule, set the missing field), followed by one or two more calls "
+        "(every ordered pair of the two execute twins). Every case "
         "runs in a thread with a 5 s deadline (a call that does not return is observed as `hang`). Observations: GruleExecutionResult "
         "{cycle_count, rules_evaluated, rules_fired}, the callback/marker firing sequence, facts and active group after each call; diffed "
         "against the Lean model, and the clauses C03.countersOk (cycle_count<=max_cycles, fired = number of firings observed, "
         "fired<=evaluated<=cycles*|KB|, cycles<=fired+1, all 0 when max_cycles=0) and C03.fixpointOk (cycle_count<max_cycles => every rule "
-        "that passes the reference gate has a false condition on the final facts, re-evaluated by the reference evaluator) are evaluated on "
-        "the implementation's observations. non-trivial = some execute made >= 3 passes or ended at the bound after firing.")
+        "that passes the reference gate has a false condition on the final facts, re-evaluated by the reference evaluator), and "
+        "early_stop_after_firing_pass (cycle_count<max_cycles => the firings split into at most cycle_count-1 passes over the sorted "
+        "knowledge base, i.e. the last pass fired nothing) are evaluated on the implementation's observations, for every call of a history. non-trivial = some execute made >= 3 passes or ended at the bound after firing.")
 TRUSTED = [
     "Lean 4.33 kernel; axioms of every property theorem within {propext, Classical.choice, Quot.sound} (audited each run)",
     "hand-written model RreModel/C02/Model.lean (exec/cycles/passLoop) tied to src/engine/engine.rs execute_at_time / execute_with_callback by the correspondence check only",
